@@ -572,8 +572,11 @@ def coarsen(obj, digits=6):
             l[i] = F(round(F(v) * q), q)
 
 
-def run_step(obj, ob, step, conv=lambda x: x):
-    """One real vdm step on `obj`; returns (answer-or-error, te, kt)."""
+def run_step(obj, ob, step, conv=lambda x: x, circ=''):
+    """One real vdm step on `obj`; returns (answer-or-error, te, kt). `circ`: circumstance that is no input of the
+    step (the RSMDef object rendered with repr / str right before the step and again before its state is read; DEBUG
+    logging on around the step)."""
+    import u4_util as U4
     R = type(obj)
     P = NS(**{k: conv(v) for k, v in ob['P'].items()})
     forc = NS(**{k: conv(v) for k, v in step['forc'].items()})
@@ -586,7 +589,12 @@ def run_step(obj, ob, step, conv=lambda x: x):
         return f(nz, dt, co, da, daz, cd, dz)
 
     def call():
-        obj.vdm(forc, NS(sens=conv(step['sens'])), P, NS(dt=conv(step['dt'])))
+        if U4.rendered(circ):
+            U4.observe(obj)
+        with U4.under(circ):
+            obj.vdm(forc, NS(sens=conv(step['sens'])), P, NS(dt=conv(step['dt'])))
+        if U4.rendered(circ):
+            U4.observe(obj)
         return snapshot(obj), obj.ublPres, list(obj.dlu), list(obj.dld)
     R.diffusion_equation = staticmethod(spy_eq)
     try:
@@ -898,7 +906,8 @@ def run_coef(chk):
             if step['dt'] < 1:
                 tag = tag.split('/dt<1s')[0] + '/dt<1s'
             line = line_vdm(ob, pre, step)
-            r, te, eq = run_step(obj, ob, step)
+            import u4_util as U4
+            r, te, eq = run_step(obj, ob, step, circ=U4.circ_pick(rng))
             pairs.append((line, fmt_vdm(r)))
             hy = vdm_hyps(ob, pre, step)
             vk[line] = '%s|step%d|%s' % (tag, s, 'hyps' if hy else 'nohyps')
@@ -966,7 +975,8 @@ def run_coef(chk):
              'and above the centre of the first level: nz0 = 1, 2, 3, 5), new forcing each step (dt 60..3600 s, and one step in six - in some histories '
              'every step - with dt = 1e-3 .. 1e-20 s, i.e. a diffusion number Kt*dt/dz^2 far below 1e-10), '
              'profiles rounded in place to 6 decimals '
-             'between steps; compared: tempProf, presProf, tempRealProf, densityProfC, '
+             'between steps; three steps of five under a circumstance that is no input (the RSMDef object rendered '
+             'with repr / str right before the step and again before its state is read, DEBUG logging on, both); compared: tempProf, presProf, tempRealProf, densityProfC, '
              'densityProfS, windProf, ublPres, self.dlu, self.dld after every step; malformed '
              'objects (nzref = 0, 1, 2, short lists, zero temperature / constants / spacing, '
              'nzfor > nzref, tall obstacles); exact',
